@@ -383,6 +383,11 @@ Definition listener (env : env) (cer_name : N -> N) (objs : objects) (evs : list
   | Ok (objs', force) => Ok (re_issue env force objs')
   end.
 
+(** * Renewal of signed objects before expiry (roa.rs:754-799, aspa.rs:279-307, bgpsec.rs:281-307):
+    an object is re-issued iff forced or its expiry lies before the threshold [now + reissue margin]. *)
+Definition renew_names (force : bool) (threshold : Z) (l : list (N * obj)) : list N :=
+  map fst (filter (fun '(_, o) => force || (o_exp o <? threshold)%Z) l).
+
 (** * Class-level commands of the key life cycle (what [process_command] emits)  *)
 Inductive kcmd :=
 | CRollInit (fresh : N)                 (* keys.rs:725-759 *)
